@@ -278,6 +278,17 @@ def _run_sliver(case):
             v.append((f"C02/dict/build_deep_{key}_sliver_from_dict/raised", f"{type(ex).__name__}: {ex}"))
     if rebuilt_dict is not None:
         record("dict", E.diff_canon(c_noid, E.canon_sliver(rebuilt_dict, with_ids=False)))
+        # the dictionary in the caller's hands is still the deep dictionary form of the sliver: converting it a
+        # second time must give the same sliver again (a conversion that consumes parts of its argument does not)
+        try:
+            again = from_dict(props=d0)
+            dff = E.diff_canon(c_noid, E.canon_sliver(again, with_ids=False))
+            if dff and not E.diff_canon(c_noid, E.canon_sliver(rebuilt_dict, with_ids=False)):
+                v.append((f"C02/dict/build_deep_{key}_sliver_from_dict/second-conversion-of-same-dict-differs",
+                          f"{dff[:3]}"))
+        except Exception as ex:
+            v.append((f"C02/dict/build_deep_{key}_sliver_from_dict/second-conversion-raised",
+                      f"{type(ex).__name__}: {ex}"))
 
     # ---- clause 3: JSON path
     rebuilt_json = None
